@@ -30,6 +30,7 @@
 #include "mc_harness.h"
 #include <dispenso/pipeline.h>
 #include <pthread.h>
+#include <cstring>
 #include <algorithm>
 #include <memory>
 
@@ -379,12 +380,167 @@ void canon_stacks() {
     pthread_join(th[order[q]], nullptr); // its stack is back in the cache before the next one exits
   }
 }
-mc::HookSetter g_hooks(nullptr, canon_stacks);
+void arena_reset();
+void reset_hook() {
+  canon_stacks();
+  arena_reset();
+}
+mc::HookSetter g_hooks(nullptr, reset_hook);
 } // namespace
+
+// ---- per-execution heap (plain build only).
+// The engine names an atomic location by the address it first saw it at and keeps that entry for the whole
+// execution.  A second pipeline() re-allocates LimitGatedSchedulers, moodycamel queues and completion events; whether
+// they land on addresses the first pipeline used depends on glibc's heap state, which in a worker process depends
+// on every execution it ran before (and on the size of the replay-prefix buffer).  The same schedule then hashes
+// differently => "replay diverged".  To make address reuse a function of the program's own malloc/free sequence, the
+// modelled threads of an execution allocate from an arena that is wiped and restarted before every execution; the
+// process' main thread (engine bookkeeping) and everything before the second warm-up execution keep using glibc.
+// The sanitizer builds own malloc, so there `again=1` is only used where a run has a single execution.
+#if defined(__has_feature)
+#if __has_feature(address_sanitizer) || __has_feature(thread_sanitizer)
+#define C27_NO_ARENA 1
+#endif
+#endif
+#ifdef C27_NO_ARENA
+namespace {
+void arena_reset() {}
+} // namespace
+#else
+#include <sys/mman.h>
+extern "C" {
+void* __libc_malloc(size_t);
+void __libc_free(void*);
+void* __libc_calloc(size_t, size_t);
+void* __libc_realloc(void*, size_t);
+void* __libc_memalign(size_t, size_t);
+}
+namespace {
+constexpr size_t kArenaSize = 256u << 20; // virtual; only touched pages cost anything
+constexpr size_t kClasses = 512;          // exact-size free lists for blocks up to 8 KiB (16-byte steps)
+char* g_abase;
+size_t g_aused, g_ahigh;
+void* g_afree[kClasses];
+int g_aresets, g_aactive;
+pthread_t g_amain;
+int g_alock;
+struct AHdr {
+  size_t size;  // usable size (multiple of 16)
+  size_t align; // 16, or the larger alignment it was allocated with (then it is never reused)
+};
+inline bool in_arena(const void* p) { return g_abase && (const char*)p >= g_abase && (const char*)p < g_abase + kArenaSize; }
+inline bool use_arena() { return g_aactive && !pthread_equal(pthread_self(), g_amain); }
+inline void alock() {
+  while (__atomic_exchange_n(&g_alock, 1, __ATOMIC_ACQUIRE)) {
+  }
+}
+inline void aunlock() { __atomic_store_n(&g_alock, 0, __ATOMIC_RELEASE); }
+void* arena_alloc(size_t size, size_t align) {
+  size_t sz = (size + 15) & ~(size_t)15;
+  if (sz < 16) sz = 16;
+  if (align < 16) align = 16;
+  alock();
+  void* out = nullptr;
+  size_t cls = sz / 16;
+  if (align == 16 && cls < kClasses && g_afree[cls]) {
+    out = g_afree[cls];
+    g_afree[cls] = *(void**)out;
+  } else {
+    size_t off = (g_aused + sizeof(AHdr) + align - 1) & ~(align - 1);
+    if (off + sz > kArenaSize) {
+      aunlock();
+      return nullptr;
+    }
+    out = g_abase + off;
+    AHdr* h = (AHdr*)((char*)out - sizeof(AHdr));
+    h->size = sz;
+    h->align = align;
+    g_aused = off + sz;
+    if (g_aused > g_ahigh) g_ahigh = g_aused;
+  }
+  aunlock();
+  return out;
+}
+void arena_free(void* p) {
+  AHdr* h = (AHdr*)((char*)p - sizeof(AHdr));
+  size_t cls = h->size / 16;
+  if (h->align != 16 || cls >= kClasses) return; // large / over-aligned blocks are not recycled within an execution
+  alock();
+  *(void**)p = g_afree[cls];
+  g_afree[cls] = p;
+  aunlock();
+}
+void arena_reset() {
+  // call 1 = prewarm, call 2 = first warm-up execution (lazily built process-wide objects get glibc memory), then active
+  if (++g_aresets < 3) return;
+  if (!g_abase) {
+    void* m = mmap(nullptr, kArenaSize, PROT_READ | PROT_WRITE, MAP_PRIVATE | MAP_ANONYMOUS | MAP_NORESERVE, -1, 0);
+    if (m == MAP_FAILED) abort();
+    g_abase = (char*)m;
+    g_amain = pthread_self();
+  }
+  if (g_ahigh) memset(g_abase, 0, g_ahigh); // no garbage from the previous execution
+  g_aused = g_ahigh = 0;
+  for (auto& f : g_afree) f = nullptr;
+  g_aactive = 1;
+}
+} // namespace
+extern "C" {
+void* malloc(size_t n) { return use_arena() ? arena_alloc(n, 16) : __libc_malloc(n); }
+void free(void* p) {
+  if (!p) return;
+  if (in_arena(p))
+    arena_free(p);
+  else
+    __libc_free(p);
+}
+void* calloc(size_t a, size_t b) {
+  if (!use_arena()) return __libc_calloc(a, b);
+  size_t n = a * b;
+  void* p = arena_alloc(n, 16);
+  if (p) memset(p, 0, n);
+  return p;
+}
+void* realloc(void* p, size_t n) {
+  if (!p) return malloc(n);
+  if (!in_arena(p)) {
+    if (!use_arena()) return __libc_realloc(p, n);
+    // a glibc block grown from a modelled thread: keep it in glibc
+    return __libc_realloc(p, n);
+  }
+  AHdr* h = (AHdr*)((char*)p - sizeof(AHdr));
+  if (n <= h->size) return p;
+  void* q = arena_alloc(n, 16);
+  if (q) {
+    memcpy(q, p, h->size);
+    arena_free(p);
+  }
+  return q;
+}
+void* memalign(size_t al, size_t n) { return use_arena() ? arena_alloc(n, al) : __libc_memalign(al, n); }
+void* aligned_alloc(size_t al, size_t n) { return memalign(al, n); }
+int posix_memalign(void** out, size_t al, size_t n) {
+  void* p = memalign(al, n);
+  if (!p) return 12;
+  *out = p;
+  return 0;
+}
+size_t malloc_usable_size(void* p) {
+  if (!p) return 0;
+  if (in_arena(p)) return ((AHdr*)((char*)p - sizeof(AHdr)))->size;
+  return 0; // not used by anything in this binary for glibc blocks
+}
+}
+#endif
 
 MC_HARNESS(pipeline) {
   int prop = (int)P("prop", 27), n = (int)P("n", 1), items = (int)P("items", 2);
-  g_canon = n >= 2 ? (n > kCanon ? kCanon : n) : 0;
+  // wd=1 (default for C29): a modelled watchdog thread turns "pipeline() never returns" into a violation.  The idle
+  // workers' 100 ms back-stop timers keep firing in such a state, so the engine sees neither a deadlock nor a livelock
+  // and would only hit its step horizon ("truncated").
+  bool wd = P("wd", prop == 29 ? 1 : 0) != 0;
+  int wthreads = n + (wd ? 1 : 0); // threads with worker-sized stacks
+  g_canon = wthreads >= 2 ? (wthreads > kCanon ? kCanon : wthreads) : 0;
   // wildcards (explored exhaustively through mc::choose, cost 0): '*' in st = any of p/2/u; f<k>=-2 = any transform kind of
   // {value, OpResult dropping nothing, OpResult dropping item 1}; thr=-2 = any stage; at=-2 = any item
   std::string st = P.s("st", "pp");
@@ -411,6 +567,18 @@ MC_HARNESS(pipeline) {
   mc_log("config: %s\n", g_desc);
   configure(c, prop, n, st, drops, items);
   bool again = P("again", 0) != 0;
+  mc::Shared<int> finished{0}, wd_ready{0};
+  if (wd) {
+    // started before the pool exists and parked at once, woken only when everything (including ~ThreadPool) is over or
+    // by the virtual clock: while the pipeline runs it is never an alternative for the scheduler, so it adds no branching
+    mc::spawn([&finished, &wd_ready] {
+      const uint64_t kHangNs = 3000000000ull; // 30 back-stop periods of virtual time
+      wd_ready.set(1);
+      mc::block_until([&finished] { return finished.get() != 0 || mc::now_ns() > kHangNs; });
+      PCHECK(finished.get() != 0, "C29: pipeline() has not returned after 3 s of virtual time in which nothing but the pool's idle back-stop timers ran (hang)");
+    });
+    mc::block_until([&wd_ready] { return wd_ready.get() != 0; });
+  }
   {
     dispenso::ThreadPool pool((size_t)n);
     bool threw = false;
@@ -469,6 +637,8 @@ MC_HARNESS(pipeline) {
       mc::cover("second_pipeline");
     }
   } // ~ThreadPool: must terminate (a stuck worker is a deadlock verdict)
+  finished.set(1);
+  mc::join_all();
   c.returned.set(2);
   mc::observe("gen_calls", c.gen_calls.get());
   // live Tracked objects / LeakSanitizer are checked by the engine when the body has returned
